@@ -610,7 +610,7 @@ func main() {
 		go func() {
 			defer wg.Done()
 			var n int64
-			startHashes := balenum.NewHashSet(1 << 20)
+			startHashes := balenum.NewHashSet(1 << 16) // distinct_nontrivial is capped; "states" has the full count
 			defer func() { startHashes.Each(r.DistinctHash) }()
 			for b := range ch {
 				b.Each(func(c *balenum.Case) {
@@ -658,6 +658,7 @@ func main() {
 	close(ch)
 	wg.Wait()
 	r.Set("start_states", startStates)
+	r.Set("distinct_nontrivial_note", "start-state hashes are kept up to 65536 per worker; the number of distinct canonical states explored is `states`")
 
 	// depths 1 and 2: derived states.
 	for depth := 1; depth <= 2; depth++ {
